@@ -1,14 +1,135 @@
 package main
 
-import "fmt"
+import (
+	"encoding/json"
+	"fmt"
+	"os"
+	"path/filepath"
+	"regexp"
+	"strings"
+)
 
-// Counterexample replay (DESIGN 2.13). Filled in per state family.
+// Counterexample replay (DESIGN 2.13): see rac.go for the machinery.
 
+var clauseNo = regexp.MustCompile(`\[#(\d+)`)
+
+func relevantTags(tags []string, id string) bool { return len(tags) == 0 || hasTag(tags, id) }
+
+// tryReplay looks for a real execution of the obligation's function on which a clause of its
+// contract that belongs to property id is false (or which panics although the contract excludes it).
 func tryReplay(p *Program, id, obl string, bad []*Obl, doc map[string]interface{}) bool {
-	return false
+	if !racEnabled() || len(bad) == 0 {
+		return false
+	}
+	fnName := bad[0].Func
+	if strings.HasPrefix(fnName, "lemma") || fnName == "" {
+		return false
+	}
+	res := racFunction(p, fnName)
+	doc["replay_search"] = map[string]interface{}{"function": fnName, "executions": res.Tries, "legal_inputs": res.Legal, "notes": res.Note,
+		"method": "the real function is run on generated inputs (go test -overlay); each execution's object graph before/after is turned into ground facts and the contract clauses are decided on them by the verifier's own evaluator; only unsat answers count"}
+	want := ""
+	if m := clauseNo.FindStringSubmatch(obl); m != nil && bad[0].Kind == "post" {
+		want = "#" + m[1] + "."
+	}
+	var pick *racRefuted
+	for i := range res.Refuted {
+		r := &res.Refuted[i]
+		if !relevantTags(r.Tags, id) {
+			continue
+		}
+		if pick == nil {
+			pick = r
+		}
+		if want != "" && strings.HasPrefix(r.Clause, want) {
+			pick = r
+			break
+		}
+	}
+	if pick == nil {
+		return false
+	}
+	doc["reproduced_by"] = map[string]interface{}{"function": fnName, "kind": pick.Kind, "clause": pick.Clause, "clause_tags": pick.Tags, "panic": pick.Panic,
+		"try": pick.Try, "seed": pick.Seed, "input": pick.Pre}
+	doc["note"] = "the obligation is no longer discharged, and the real code violates the contract clause above on the recorded input; `check replay <this file>` runs that input again"
+	return true
 }
 
 func runReplay(path string) int {
-	fmt.Println("replay of", path, ": no replay builder for this obligation (no-failing-input-found)")
+	data, err := os.ReadFile(path)
+	if err != nil {
+		fmt.Fprintln(os.Stderr, "replay:", err)
+		return 2
+	}
+	var doc struct {
+		Property   string `json:"property"`
+		Obligation string `json:"obligation"`
+		Outcome    string `json:"outcome"`
+		By         *struct {
+			Function string `json:"function"`
+			Kind     string `json:"kind"`
+			Clause   string `json:"clause"`
+			Try      int    `json:"try"`
+			Seed     int64  `json:"seed"`
+		} `json:"reproduced_by"`
+	}
+	if err := json.Unmarshal(data, &doc); err != nil {
+		fmt.Fprintln(os.Stderr, "replay:", err)
+		return 2
+	}
+	if doc.By == nil {
+		fmt.Printf("replay of %s: obligation %s has no recorded failing input (no-failing-input-found); re-run the property check to see whether it is still undischarged\n", path, doc.Obligation)
+		return 0
+	}
+	p, err := loadProgram()
+	if err != nil {
+		fmt.Fprintln(os.Stderr, "TOOLING-ERROR: load:", err)
+		return 2
+	}
+	fn := p.funcs[doc.By.Function]
+	fc := p.cs.Funcs[doc.By.Function]
+	if fn == nil || fc == nil {
+		fmt.Printf("replay: function %s is no longer under contract\n", doc.By.Function)
+		return 2
+	}
+	dir, err := os.MkdirTemp(workDir, "replay")
+	if err != nil {
+		fmt.Fprintln(os.Stderr, "replay:", err)
+		return 2
+	}
+	defer os.RemoveAll(dir)
+	overlay, err := racHarnessFiles(fn, dir)
+	if err != nil {
+		fmt.Fprintln(os.Stderr, "replay:", err)
+		return 2
+	}
+	out := filepath.Join(dir, "tries.jsonl")
+	log, _ := racRunHarness(overlay, out, doc.By.Try+1, doc.By.Seed, doc.By.Try)
+	ts := racReadTries(out)
+	if len(ts) != 1 {
+		fmt.Printf("replay: the harness did not run the recorded input: %s\n", lastLines(log, 5))
+		return 2
+	}
+	t := ts[0]
+	legal, refuted, note := racEval(p, fn, fc, t)
+	if !legal {
+		fmt.Printf("replay of %s: input no longer accepted by the contract's requires (%s)\n", path, note)
+		return 0
+	}
+	if doc.By.Kind == "panic" {
+		if t.Panic != "" {
+			fmt.Printf("REPRODUCED property=%s: %s panics on the recorded input: %s\n", doc.Property, doc.By.Function, t.Panic)
+			return 1
+		}
+		fmt.Printf("replay of %s: %s no longer panics on the recorded input\n", path, doc.By.Function)
+		return 0
+	}
+	for _, c := range refuted {
+		if c.text == doc.By.Clause {
+			fmt.Printf("REPRODUCED property=%s: on the recorded input the real %s violates ensures %s\n", doc.Property, doc.By.Function, c.text)
+			return 1
+		}
+	}
+	fmt.Printf("replay of %s: clause %s holds on the recorded input now\n", path, doc.By.Clause)
 	return 0
 }
